@@ -56,6 +56,7 @@ type Solver struct {
 	Kind      string // "z3", "z3-new", "cvc5"
 	cmd       *exec.Cmd
 	in        io.WriteCloser
+	bw        *bufio.Writer
 	out       *bufio.Reader
 	defined   map[uint32]bool
 	Stats     SolverStats
@@ -90,7 +91,7 @@ func NewSolver(kind string, timeoutMS int) (*Solver, error) {
 	if err := cmd.Start(); err != nil {
 		return nil, err
 	}
-	s := &Solver{Kind: kind, cmd: cmd, in: in, out: bufio.NewReaderSize(out, 1<<16), defined: map[uint32]bool{}, timeoutMS: timeoutMS}
+	s := &Solver{Kind: kind, cmd: cmd, in: in, bw: bufio.NewWriterSize(in, 1<<16), out: bufio.NewReaderSize(out, 1<<16), defined: map[uint32]bool{}, timeoutMS: timeoutMS}
 	if kind == "cvc5" {
 		s.send("(set-logic ALL)\n")
 	} else {
@@ -107,7 +108,14 @@ func (s *Solver) send(text string) {
 	if s.Log != nil {
 		io.WriteString(s.Log, text)
 	}
-	if _, err := io.WriteString(s.in, text); err != nil {
+	if _, err := s.bw.WriteString(text); err != nil {
+		s.dead = true
+		s.LastErr = err.Error()
+	}
+}
+
+func (s *Solver) flush() {
+	if err := s.bw.Flush(); err != nil {
 		s.dead = true
 		s.LastErr = err.Error()
 	}
@@ -116,6 +124,7 @@ func (s *Solver) send(text string) {
 func (s *Solver) Close() {
 	if s.cmd != nil {
 		s.send("(exit)\n")
+		s.flush()
 		s.in.Close()
 		done := make(chan struct{})
 		go func() { s.cmd.Wait(); close(done) }()
@@ -149,6 +158,7 @@ func (s *Solver) readLine() (string, error) {
 // sync drains output until the echo marker, returning the lines seen before it.
 func (s *Solver) sync() []string {
 	s.send("(echo \"@@sync\")\n")
+	s.flush()
 	var lines []string
 	for {
 		l, err := s.readLine()
@@ -310,7 +320,7 @@ func (s *Solver) Values(ts []*Term) (map[*Term]uint64, error) {
 		s.send("(get-value (" + strings.Join(names[start:end], " ") + "))\n")
 		lines := s.sync()
 		text := strings.Join(lines, " ")
-		if strings.Contains(text, "error") {
+		if strings.Contains(text, "(error") {
 			return nil, fmt.Errorf("get-value: %s", text)
 		}
 		vals, err := parseValues(text)
